@@ -127,6 +127,8 @@ pub fn run(args: &[String]) {
             for b in [*x, e] {
                 ts.extend_from_slice(&[b, ulp_up(b), ulp_dn(b), b + 1e-12, b - 1e-12, b + 0.5e-12, b - 0.5e-12, b + 2e-12, b - 2e-12, b + 1.0000001e-12, b - 1.0000001e-12]);
             }
+            // around the relative slack of the lookups (4 eps |b|)
+            for b in [*x, e] { for f in [3.0, 4.0, 5.0, 9.0] { ts.push(b + f * f64::EPSILON * b.abs()); ts.push(b - f * f64::EPSILON * b.abs()); } }
             ts.push(*x + 0.5 * *h);
             ts.push(*x + rng.unit() * *h);
         }
